@@ -113,6 +113,7 @@ class C09(ScanCheck):
             for _ in range(k):
                 s_, rk, feats = gen.scenario(rng, n, big=n > 3)
                 scen.append((s_, rk[:1]))
+        scen += [(s_, rk[:1]) for s_, rk, _ in gen.boundary_scenarios(rng, 8 if q else 40)]
         real = self.realise(rng, scen)
         self.n_owned = 0
         for (s_, snt, txhex, rows) in real:
